@@ -112,8 +112,21 @@ func loadEngine(repo string, contractDir string) (*Engine, error) {
 			e.defines[k] = d
 		}
 		for _, c := range cs {
-			if _, dup := e.contracts[c.Key]; dup {
-				return nil, fmt.Errorf("duplicate contract for %s", c.Key)
+			if old, dup := e.contracts[c.Key]; dup {
+				// several blocks for one function are merged (clauses grouped by property)
+				old.Requires = append(old.Requires, c.Requires...)
+				old.Ensures = append(old.Ensures, c.Ensures...)
+				old.Modifies = append(old.Modifies, c.Modifies...)
+				old.Lets = append(old.Lets, c.Lets...)
+				old.Asserts = append(old.Asserts, c.Asserts...)
+				old.NoPanic = old.NoPanic || c.NoPanic
+				for k, v := range c.Raw {
+					old.Raw[k] = append(old.Raw[k], v...)
+				}
+				for k, v := range c.Loops {
+					old.Loops[k] = v
+				}
+				continue
 			}
 			e.contracts[c.Key] = c
 		}
@@ -183,4 +196,51 @@ func (e *Engine) sortedContractKeys() []string {
 	}
 	sort.Strings(ks)
 	return ks
+}
+
+// fieldType: the named type hotline.Field
+func (e *Engine) fieldType() types.Type {
+	return e.pkgs["hotline"].Pkg.Scope().Lookup("Field").Type()
+}
+
+// ioKind classifies a concrete reader / writer type.
+//
+//	writers: 1 = record writer (its Write parses one complete record: directive `record_writer`
+//	         on the Write method's contract), 2 = stream writer (directive `stream_writer`, or a
+//	         library writer that simply appends: *bytes.Buffer, *os.File, *bufio.Writer)
+//	readers: 2 = in-memory reader delivering everything asked for in one chunk (*bytes.Reader,
+//	         *bytes.Buffer, *strings.Reader), 1 = anything else (a connection: arbitrary chunks)
+func (e *Engine) ioKind(t types.Type, writer bool) int {
+	if t == nil {
+		return 0
+	}
+	s := typeStr(t)
+	if writer {
+		switch s {
+		case "*bytes.Buffer", "*os.File", "*bufio.Writer", "*hotline.WriteCounter":
+			return 2
+		}
+		if pt, ok := t.Underlying().(*types.Pointer); ok {
+			if nt, ok := pt.Elem().(*types.Named); ok && nt.Obj().Pkg() != nil {
+				key := nt.Obj().Pkg().Name() + ".(*" + nt.Obj().Name() + ").Write"
+				if ct := e.contracts[key]; ct != nil {
+					if _, ok := ct.Raw["stream_writer"]; ok {
+						return 2
+					}
+					if _, ok := ct.Raw["record_writer"]; ok {
+						return 1
+					}
+				}
+				if e.funcs[key] != nil {
+					return 1 // a repository Write method without classification is treated as a record parser
+				}
+			}
+		}
+		return 0
+	}
+	switch s {
+	case "*bytes.Reader", "*bytes.Buffer", "*strings.Reader":
+		return 2
+	}
+	return 1
 }
